@@ -3273,6 +3273,7 @@ func genFuncM(p *packages.Package, e entry) (string, error) {
 		return "", nerr
 	}
 	params = fc.k11bParams(params) // wp k11b (ext_k11b.go)
+	params = fc.k11b2Params(params) // wp k11b2 (ext_k11b2.go): abstract parameters of the Aztec high-level decoder
 	if fc.m.fuelUsed {
 		params = append([]string{"(fuel : Nat)"}, params...)
 	}
